@@ -123,6 +123,15 @@ def build_classifier(spec):
         ncol = spec.get("n_columns", 1)
         ests = [("m%d" % j, TimeSeriesForestClassifier(n_estimators=3, random_state=rs + j), [j]) for j in range(ncol)]
         return ColumnEnsembleClassifier(ests)
+    if k == "tde":
+        # (not in CLASSIFIERS: its information-gain binning hands a float max_depth to the tree,
+        # which scikit-learn 1.7 refuses; the equal-width binning variant alone runs here)
+        from sktime.classification.dictionary_based import TemporalDictionaryEnsemble
+
+        est = TemporalDictionaryEnsemble(n_parameter_samples=spec.get("n_parameter_samples", 12), max_ensemble_size=spec.get("max_ensemble_size", 3),
+                                         randomly_selected_params=spec.get("randomly_selected_params", 5), random_state=rs)
+        est.igb_options = [False]
+        return est
     if k == "tsfr":
         from sktime.regression.interval_based import TimeSeriesForestRegressor
 
